@@ -71,3 +71,14 @@ Theorem C04_decided_flight_invariant :
         relay_stream (length fl) b rest = data.
 Proof. exact decided_flight_invariant. Qed.
 Print Assumptions C04_decided_flight_invariant.
+
+(* Several station keys (key rotation): `reveal tag` lists the identifiers the tag reveals to under the
+   station's keys, in the order the prefix transport tries them.  The condition of `client_flight` on the
+   tag - first_reg (reveal tag) R = Some r - holds whatever the position of the key the client
+   obfuscated to, as long as what the earlier keys reveal is not a registered identifier. *)
+Theorem C04_any_station_key_position :
+  forall (pre : list bytes) (id : bytes) (post : list bytes) (R : registry) (r : reginfo),
+    (forall x, In x pre -> lookup x R = None) -> lookup id R = Some r ->
+    first_reg (pre ++ id :: post) R = Some r.
+Proof. exact first_reg_any_position. Qed.
+Print Assumptions C04_any_station_key_position.
